@@ -230,7 +230,7 @@ def cases(ctx):
     rng = ctx.rng
     jobs = []
     meta = []
-    nmsg = ctx.n(8, 12)
+    nmsg = ctx.n(8, 10)
     made = 0
     tries = 0
     clamp = []
@@ -322,7 +322,7 @@ def cases(ctx):
                 am = residue_message(n, k, tsig0[1], with_option=bool(n & 1))
                 prefer = rng.choice([0, 1])
                 yield "padres", [10, am, None, 65535, 0, prefer, pad]
-                if rng.random() < (0.25 if pad == 16 else 0.08 if ctx.quick else 0.15):
+                if rng.random() < (0.25 if pad == 16 else 0.08 if ctx.quick else 0.1):
                     yield "padres-model", [1, am, None, 65535, 0, prefer, pad]
     # the implementation at EVERY limit (in parallel); the model at both ends of every run of equal
     # outputs, at random limits, and at every limit of sampled chunks
@@ -366,7 +366,7 @@ def cases(ctx):
     am = [1, 0, [[[[b"a", b""], 1, 1, 0, None, 0, []]], [], [], []], [0, 1232, [[65001, bytes(600)]]], None]
     yield "reserve-too-large", [1, am, None, 512, 0, 1, 0]
     # low-level Renderer sequences: TooBig caught by the caller, then more records with the same owner
-    for i in range(ctx.n(150, 600)):
+    for i in range(ctx.n(150, 450)):
         origin = None if rng.random() < 0.8 else [b"o", b"example", b""]
         mid, flags, ms, ops = g.gen_rseq(rng, origin)
         yield "rseq", [7, origin, mid, flags, ms, ops]
